@@ -378,6 +378,7 @@ def check(ctx):
         from . import common as _common
         _common.check_frame(f, rep, 'C09-R0')
         _common.check_derives(f, rep, 'C09-R0')
+        _common.check_state_fields(f, rep, 'C09-R0', ('members',))
         r1_growth(ctx, f, rep)
         rep.rule('C09-R2', 'the only write to the identity of a stored record is the swap in apply_existing_if, guarded by '
                            'identities differing, by known.id NOT winning the conflict and by the caller condition; it '
